@@ -14,7 +14,7 @@ classdef("Segment", sealed=True, fields=dict(header=Opt(Ref("SegmentHeader"))))
 classdef("liquer.parser.ResourceQuerySegment", bases=["Segment"], fields=dict(query=Seq(Ref("ResourceName"))))
 classdef("liquer.parser.ActionRequest", fields={})
 classdef("liquer.parser.TransformQuerySegment", bases=["Segment"],
-         fields=dict(query=Seq(Ref("ActionRequest")), filename=Opt(Ref("ResourceName"))))
+         fields=dict(query=Seq(Ref("ActionRequest")), filename=Opt(Str)))
 classdef("liquer.parser.Query", fields=dict(segments=Seq(Ref("Segment")), absolute=Bool))
 
 inline("liquer.parser.ResourceName.encode", "liquer.parser.ResourceQuerySegment.segment_name")
